@@ -5,7 +5,7 @@ the deterministic event loop, with a stub device/bearer recording what is transm
 """
 import struct
 
-from vf.e1 import harness, untraced
+from vf.e1 import harness, untraced, concrete as C
 from vf import flags as _flags
 from vf import detloop
 from vf.props.gattstub import StubDevice, StubBearer, StubEnhancedBearer, make_server, feed, pdus
@@ -360,6 +360,33 @@ def indications_one_at_a_time(mtu: int, l1: int, o1: int, o2: int, o3: int, o4: 
                 confirmed += 1
             loop.run_ready()
         return all(t.done() and t.exception() is None for t in tasks)
+
+
+@harness(pre=['0 <= l <= 70 and 0 <= x <= 255 and 0 <= kind <= 1'], family='indicate', twin=True, timeout=(90, 240), grid={'emtu': [23, 64], 'cmtu': [23, 64]},
+         kernels=('bumble.gatt_server.Server._notify_single_subscriber', 'bumble.gatt_server.Server._indicate_single_bearer', 'bumble.gatt_server.Server.notify_subscriber', 'bumble.gatt_server.Server.indicate_subscriber'),
+         bounds='a notification / indication on an ENHANCED bearer whose ATT_MTU (23 or 64) differs from or equals the MTU of the connection\'s fixed bearer (23 or 64), value length 0..70 (symbolic), content byte symbolic: the PDU goes out on that bearer, is never longer than THAT bearer\'s MTU and carries the first min(len, MTU-3) bytes of the value')
+def enhanced_bearer_notification_size(l: int, x: int, kind: int, emtu: int, cmtu: int) -> bool:
+    from vf.props.gattstub import StubEnhancedBearer
+    kind = C(kind, 0, 1)
+    with detloop.running() as loop:
+        value = bytes([x]) + bytes(l - 1) if l else b''
+        ch = gatt.Characteristic(U(0x2A00), READ | gatt.Characteristic.Properties.NOTIFY | gatt.Characteristic.Properties.INDICATE, P.READABLE, value)
+        dev, server = make_server([ch])
+        conn = StubBearer(cmtu)
+        eb = StubEnhancedBearer(conn, emtu)
+        server.subscribers[eb] = {ch.handle: b'\x03\x00'}
+        t = loop.create_task(server.notify_subscriber(eb, ch) if kind == 0 else server.indicate_subscriber(eb, ch))
+        loop.run_ready()
+        if pdus(dev) or len(eb.written) != 1:
+            return False
+        pdu = eb.written[0]
+        want = value[:emtu - 3]
+        if len(pdu) > emtu or pdu[0] != (0x1B if kind == 0 else 0x1D) or pdu[3:] != want:
+            return False
+        if kind == 1:
+            server.on_gatt_pdu(eb, att.ATT_PDU.from_bytes(b'\x1e'))
+            loop.run_ready()
+        return t.done() and t.exception() is None
 
 
 @harness(pre=['0 <= o2 <= 3 and 0 <= o3 <= 3 and 0 <= o4 <= 3 and 0 <= x <= 255'], family='indicate', twin=True, timeout=(90, 200), grid={'o1': [0, 1, 2, 3]},
